@@ -247,7 +247,8 @@ Section Frag.
     inv_bnd : forall v c x, get t v = Some c -> cval c = Bound x -> wellb U (nvars t) (U v) x;
     inv_kind : forall v c x, get t v = Some c -> cval c = Bound x -> kinded K x;
     inv_chain : forall v c h cs, get t v = Some c -> cval c = Bound (Node h cs) -> head_var h <> None ->
-                K v = KG /\ exists w k, occ_kind h = Some (w, k) /\ (k = KI \/ k = KF)
+                K v = KG /\ exists w k, occ_kind h = Some (w, k) /\ (k = KI \/ k = KF);
+    inv_num : forall v c x, get t v = Some c -> cval c = Bound x -> K v = KI \/ K v = KF -> exists s, x = Node (HScalar s) []
   }.
 
   Definition step (K : N -> vk) (U : N -> N) (t : table) (K' : N -> vk) (U' : N -> N) (t' : table) : Prop :=
@@ -336,6 +337,8 @@ Section Ops.
         intros w Hw. fold n in Hw. exact (proj2 (UO w Hw)).
       + intros v c h cs E B Hh. destruct (G v c E) as [[L Ev] | [-> ->]]; [| discriminate B].
         rewrite (proj2 (UO v L)). exact (inv_chain _ _ _ _ I v c h cs Ev B Hh).
+      + intros v c x E B HKv. destruct (G v c E) as [[L Ev] | [-> ->]]; [| discriminate B].
+        rewrite (proj2 (UO v L)) in HKv. exact (inv_num _ _ _ _ I v c x Ev B HKv).
     - split; [| split].
       + split.
         * intros v x (c & E & B). exists c. split; [| exact B]. unfold t'. rewrite get_new_variable_old; [exact E | eapply get_some_lt; exact E].
@@ -352,9 +355,10 @@ Section Ops.
     pfrag ar g = true -> wellb U (nvars t) u0 g -> kinded K g ->
     (forall h cs, g = Node h cs -> head_var h <> None ->
        (forall v cl, get t v = Some cl -> ccls cl = c -> K v = KG) /\ exists w k, occ_kind h = Some (w, k) /\ (k = KI \/ k = KF)) ->
+    (forall v cl, get t v = Some cl -> ccls cl = c -> K v = KI \/ K v = KF -> exists s, g = Node (HScalar s) []) ->
     inv K U (set_value c (Bound g) t) /\ step K U t K U (set_value c (Bound g) t).
   Proof.
-    intros I HU Hg Hw Hk Hc. set (t' := set_value c (Bound g) t).
+    intros I HU Hg Hw Hk Hc Hn. set (t' := set_value c (Bound g) t).
     assert (NV : nvars t' = nvars t) by apply nvars_set_value.
     split.
     - constructor.
@@ -381,6 +385,9 @@ Section Ops.
       + intros v c1 h cs E B Hh. destruct (get_set_value_inv _ _ _ _ _ E) as (a0 & A0 & _ & [[CA VA] | [CA ->]]).
         * rewrite VA in B. inversion B; subst. destruct (Hc h cs eq_refl Hh) as [KA KB]. split; [exact (KA v a0 A0 eq_refl) | exact KB].
         * exact (inv_chain _ _ _ _ I v a0 h cs A0 B Hh).
+      + intros v c1 x E B HKv. destruct (get_set_value_inv _ _ _ _ _ E) as (a0 & A0 & _ & [[CA VA] | [CA ->]]).
+        * rewrite VA in B. inversion B; subst. exact (Hn v a0 A0 eq_refl HKv).
+        * exact (inv_num _ _ _ _ I v a0 x A0 B HKv).
     - split; [| split].
       + split.
         * intros v x (c0 & E & B). exists c0. split; [| exact B]. unfold t'. rewrite get_set_value, E. cbn [option_map].
@@ -435,6 +442,9 @@ Section Ops.
       + intros v c1 h cs E B Hh. destruct (get_set_value_inv _ _ _ _ _ E) as (a0 & A0 & _ & [[CA VA] | [CA ->]]).
         * rewrite VA in B. discriminate B.
         * exact (inv_chain _ _ _ _ I v a0 h cs A0 B Hh).
+      + intros v c1 x E B HKv. destruct (get_set_value_inv _ _ _ _ _ E) as (a0 & A0 & _ & [[CA VA] | [CA ->]]).
+        * rewrite VA in B. discriminate B.
+        * exact (inv_num _ _ _ _ I v a0 x A0 B HKv).
     - split; [| split].
       + split.
         * intros v x (c0 & E & B). exists c0. split; [| exact B]. unfold t'. rewrite get_set_value, E. cbn [option_map].
@@ -502,6 +512,8 @@ Section Ops.
         exact (inv_kind _ _ _ _ I v a0 x A0 B).
       + intros v c1 h cs E B Hh. destruct (get_merge_inv _ _ _ _ _ _ E) as (a0 & A0 & [[CA ->] | (CA1 & CA2 & ->)]); [discriminate B |].
         exact (inv_chain _ _ _ _ I v a0 h cs A0 B Hh).
+      + intros v c1 x E B HKv. destruct (get_merge_inv _ _ _ _ _ _ E) as (a0 & A0 & [[CA ->] | (CA1 & CA2 & ->)]); [discriminate B |].
+        exact (inv_num _ _ _ _ I v a0 x A0 B HKv).
     - split; [| split].
       + split.
         * intros v x (c0 & E & B). exists c0. split; [| exact B]. unfold t'. rewrite get_merge, E. cbn [option_map].
@@ -665,6 +677,12 @@ Section Specs.
       split; [rewrite (inv_unb _ _ _ _ I v c u E B); exact L | auto].
   Qed.
 
+  Lemma pfrag_leaf h cs : pfrag (Node h cs) = true -> head_arity ar h = Some 0%nat -> cs = [].
+  Proof.
+    intros H A. apply pfrag_node in H. destruct H as (n & Q & Ln & _). rewrite A in Q. inversion Q as [Hn]. rewrite <- Hn in Ln.
+    destruct cs; [reflexivity | discriminate Ln].
+  Qed.
+
   Lemma okt_leaf K t h : head_arity ar h = Some 0%nat -> match occ_kind h with Some (w, k) => K w = k | None => True end ->
     match head_var h with Some w => w < nvars t | None => True end -> okt K t (Node h []).
   Proof.
@@ -698,10 +716,9 @@ Section Specs.
     destruct h; try (apply DEF; [reflexivity | exact Logic.I | exact E]); try (apply pfrag_node in Px; destruct Px as (n & Q & _); discriminate Q).
     - (* type placeholder *)
       destruct (N.ltb_spec ui ui0) as [L | L]; [apply fail_inv in E; discriminate E |].
-      apply ret_inv in E. destruct E as (-> & -> & ->). apply SAME. apply pfrag_node in Px. destruct Px as (n & Q & Ln & _). inversion Q; subst.
-      destruct cs; [| discriminate Ln]. apply allsub_node. split; [split; [exact Logic.I | exact L] | constructor].
+      apply ret_inv in E. destruct E as (-> & -> & ->). apply SAME. rewrite (pfrag_leaf _ _ Px eq_refl). apply allsub_node. split; [split; [exact Logic.I | exact L] | constructor].
     - (* type unknown *)
-      apply pfrag_node in Px. destruct Px as (n & Q & Ln & _). inversion Q; subst. destruct cs; [| discriminate Ln].
+      pose proof (pfrag_leaf _ _ Px eq_refl) as ->.
       apply allsub_node in Kx, Sx. destruct Kx as [Kv _], Sx as [Sv _]. cbn [head_var] in Sv.
       apply bind_inv in E. destruct E as (c & t2 & g2 & g3 & E1 & E2 & ->). apply get_cell_inv in E1. destruct E1 as (-> & -> & Ev).
       destruct (cval c) as [u | val] eqn:B.
@@ -720,7 +737,7 @@ Section Specs.
         cbn [app]. eapply teq_trans; [| exact Ty]. eapply teq_step; [exact S1 | apply incl_refl |].
         eapply teq_var_value; [reflexivity | exact Ev | exact B].
     - (* lifetime unknown *)
-      apply pfrag_node in Px. destruct Px as (n & Q & Ln & _). inversion Q; subst. destruct cs; [| discriminate Ln].
+      pose proof (pfrag_leaf _ _ Px eq_refl) as ->.
       apply allsub_node in Kx, Sx. destruct Kx as [Kv _], Sx as [Sv _]. cbn [head_var] in Sv. cbn [occ_kind] in Kv.
       apply bind_inv in E. destruct E as (c & t2 & g2 & g3 & E1 & E2 & ->). apply get_cell_inv in E1. destruct E1 as (-> & -> & Ev).
       destruct (cval c) as [u | val] eqn:B.
@@ -737,7 +754,7 @@ Section Specs.
         cbn [app]. eapply teq_trans; [| exact Ty]. eapply teq_step; [exact S1 | apply incl_refl |].
         eapply teq_var_value; [reflexivity | exact Ev | exact B].
     - (* lifetime placeholder *)
-      apply pfrag_node in Px. destruct Px as (n & Q & Ln & _). inversion Q; subst. destruct cs; [| discriminate Ln].
+      pose proof (pfrag_leaf _ _ Px eq_refl) as ->.
       destruct (N.ltb_spec ui ui0) as [L | L].
       + apply bind_inv in E. destruct E as (x & t2 & g2 & g3 & E1 & E2 & ->). apply new_variable_inv in E1. destruct E1 as (-> & -> & ->).
         apply bind_inv in E2. destruct E2 as (r & t3 & g4 & g5 & E3 & E4 & ->). apply push_outlives_inv in E3. destruct E3 as (-> & ->).
@@ -752,4 +769,445 @@ Section Specs.
         cbn [app]. apply teq_sym. apply teq_outlives; try reflexivity; cbn [In]; auto.
       + apply ret_inv in E. destruct E as (-> & -> & ->). apply SAME. apply allsub_node. split; [split; [exact Logic.I | exact L] | constructor].
   Qed.
+
+  (** *** Generalisation *)
+
+  Definition gen_post (ui : N) (x : tm) (K : N -> vk) (U : N -> N) (t : table) (g : tm) (t1 : table) (g1 : list tm) : Prop :=
+    g1 = [] /\ exists K1 U1, inv K1 U1 t1 /\ step K U t K1 U1 t1 /\ okt K1 t1 g /\ wellb U1 (nvars t1) ui g
+      /\ (forall v c, get t v = Some c -> get t1 v = Some c)
+      /\ (forall h cs, x = Node h cs -> head_var h = None -> kind_of x = KTy -> exists cs', g = Node h cs').
+
+  Section GenLevel.
+    Variable f : nat.
+    Variable ui : N.
+    Hypothesis IHf : forall v x K U t g t1 g1,
+      inv K U t -> okt K t x -> wellb U (nvars t) ui x ->
+      gen adt_var fn_var f ui v x t = (Done g, t1, g1) -> gen_post ui x K U t g t1 g1.
+
+    Lemma gen_list_spec (vf : nat -> variance) : forall cs i K U t ys t1 g1,
+      inv K U t -> Forall (okt K t) cs -> Forall (wellb U (nvars t) ui) cs ->
+      mapM_idx (fun i c => gen adt_var fn_var f ui (vf i) c) i cs t = (Done ys, t1, g1) ->
+      g1 = [] /\ exists K1 U1, inv K1 U1 t1 /\ step K U t K1 U1 t1 /\ Forall (okt K1 t1) ys /\ Forall (wellb U1 (nvars t1) ui) ys
+        /\ (forall v c, get t v = Some c -> get t1 v = Some c) /\ length ys = length cs.
+    Proof.
+      induction cs as [| x r IHr]; intros i K U t ys t1 g1 I Hcs Wcs E; cbn [mapM_idx] in E.
+      - apply ret_inv in E. destruct E as (-> & -> & ->). split; [reflexivity |]. exists K, U.
+        split; [exact I |]. split; [apply step_refl |]. split; [constructor |]. split; [constructor |]. split; [auto | reflexivity].
+      - apply Forall_cons_iff in Hcs, Wcs. destruct Hcs as [Hx Hr], Wcs as [Wx Wr].
+        apply bind_inv in E. destruct E as (y & t2 & g2 & g3 & E1 & E2 & ->).
+        destruct (IHf (vf i) x K U t y t2 g2 I Hx Wx E1) as (-> & K2 & U2 & I2 & S2 & Oy & Wy & G2 & _).
+        apply bind_inv in E2. destruct E2 as (ys' & t3 & g4 & g5 & E3 & E4 & ->).
+        apply ret_inv in E4. destruct E4 as (-> & -> & ->).
+        assert (Hr2 : Forall (okt K2 t2) r). { eapply Forall_impl; [| exact Hr]. intros z Hz. eapply okt_step; eassumption. }
+        assert (Wr2 : Forall (wellb U2 (nvars t2) ui) r). { eapply Forall_impl; [| exact Wr]. intros z Hz. eapply wellb_step; eassumption. }
+        destruct (IHr (S i) K2 U2 t2 ys' t3 g4 I2 Hr2 Wr2 E3) as (-> & K3 & U3 & I3 & S3 & Oys & Wys & G3 & L3).
+        split; [reflexivity |]. exists K3, U3. split; [exact I3 |]. split; [eapply step_trans; eassumption |].
+        split; [constructor; [eapply okt_step; eassumption | exact Oys] |].
+        split; [constructor; [eapply wellb_step; eassumption | exact Wys] |].
+        split; [intros v c Ev; apply G3; apply G2; exact Ev | cbn [length]; congruence].
+    Qed.
+  End GenLevel.
+
+  Lemma wellb_children U n m h cs : wellb U n m (Node h cs) -> Forall (wellb U n m) cs.
+  Proof. intros H. apply allsub_node in H. apply H. Qed.
+
+  Lemma gen_spec : forall f ui v x K U t g t1 g1,
+    inv K U t -> okt K t x -> wellb U (nvars t) ui x ->
+    gen adt_var fn_var f ui v x t = (Done g, t1, g1) -> gen_post ui x K U t g t1 g1.
+  Proof.
+    induction f as [| f IH]; intros ui v x K U t g t1 g1 I Ox Wx E; cbn [gen] in E; [apply fail_inv in E; discriminate E |].
+    destruct x as [s d i | d i c | h cs]; try (destruct Ox as [Q _]; discriminate Q).
+    pose proof Ox as (Px & Kx & Sx).
+    assert (SAME : gen_post ui (Node h cs) K U t (Node h cs) t []).
+    { split; [reflexivity |]. exists K, U. split; [exact I |]. split; [apply step_refl |]. split; [exact Ox |]. split; [exact Wx |].
+      split; [auto |]. intros h' cs' Q _ _. inversion Q; subst. eauto. }
+    assert (FRESH : forall (k : vk) (y : tm) (Hy : forall n, okt (upd K n k) (snd (new_variable ui t)) y -> True),
+               True) by auto.
+    (* a fresh variable *)
+    assert (NEW : forall (hv : N -> head) (kk : vk),
+               (forall n, head_arity ar (hv n) = Some 0%nat /\ occ_kind (hv n) = Some (n, kk) /\ head_var (hv n) = Some n) ->
+               (head_var h <> None \/ kind_of (Node h cs) <> KTy) ->
+               forall g t1 g1, (y <- m_new_variable ui;; ret (Node (hv y) [])) t = (Done g, t1, g1) -> gen_post ui (Node h cs) K U t g t1 g1).
+    { intros hv kk Hhv NH g' t' g'' E'. apply bind_inv in E'. destruct E' as (n & t2 & g2 & g3 & E1 & E2 & ->).
+      apply new_variable_inv in E1. destruct E1 as (-> & -> & ->). apply ret_inv in E2. destruct E2 as (-> & -> & ->).
+      destruct (inv_new ar K U t ui kk I) as [I1 S1]. destruct (Hhv (nvars t)) as (A1 & A2 & A3).
+      split; [reflexivity |]. exists (upd K (nvars t) kk), (upd U (nvars t) ui). split; [exact I1 |]. split; [exact S1 |].
+      assert (UN : upd U (nvars t) ui (nvars t) = ui) by (unfold upd; rewrite N.eqb_refl; reflexivity).
+      assert (KN : upd K (nvars t) kk (nvars t) = kk) by (unfold upd; rewrite N.eqb_refl; reflexivity).
+      split; [apply okt_leaf; [exact A1 | rewrite A2; exact KN | rewrite A3, nvars_new_variable; lia] |].
+      split.
+      - apply allsub_node. split; [| constructor]. rewrite A3. split; [rewrite nvars_new_variable; lia |].
+        destruct (hv (nvars t)) eqn:Q; try exact Logic.I; cbn [head_var] in A3; inversion A3; subst; try (rewrite UN; lia); try discriminate A2.
+        destruct k; try exact Logic.I. rewrite UN. lia.
+      - split; [intros w c Ew; rewrite get_new_variable_old; [exact Ew | eapply get_some_lt; exact Ew] |].
+        intros h' cs' Q NV KT. inversion Q; subst. destruct NH as [NH | NH]; contradiction. }
+    destruct (kind_of (Node h cs)) eqn:KD.
+    - (* types *)
+      assert (SUB : forall vf g t1 g1, (cs' <- mapM_idx (fun i c => gen adt_var fn_var f ui (vf i) c) 0 cs;; ret (Node h cs')) t = (Done g, t1, g1) ->
+                     gen_post ui (Node h cs) K U t g t1 g1).
+      { intros vf g' t' g'' E'. apply bind_inv in E'. destruct E' as (cs' & t2 & g2 & g3 & E1 & E2 & ->).
+        apply ret_inv in E2. destruct E2 as (-> & -> & ->).
+        destruct (gen_list_spec f ui (IH ui) vf cs 0%nat K U t cs' t2 g2 I (okt_children K t h cs Ox) (wellb_children _ _ _ _ _ Wx) E1)
+          as (-> & K1 & U1 & I1 & S1 & Ocs & Wcs & G1 & L1).
+        split; [reflexivity |]. exists K1, U1. split; [exact I1 |]. split; [exact S1 |].
+        split; [apply okt_node with (cs := cs); [eapply okt_step; eassumption | exact L1 | exact Ocs] |].
+        split; [| split; [exact G1 | intros h' cs'' Q _ _; inversion Q; subst; eauto]].
+        apply allsub_node. split; [| exact Wcs]. apply allsub_node in Wx. destruct Wx as [[W1 W2] _].
+        split; [destruct (head_var h); [destruct S1 as (_ & N1 & _); lia | exact Logic.I] |].
+        destruct h; try exact Logic.I; try exact W2; cbn [head_var] in W1.
+        - destruct S1 as (_ & _ & H1). destruct k; try exact Logic.I. destruct (H1 v0 W1) as [Q _]. lia.
+        - destruct S1 as (_ & _ & H1). destruct (H1 v0 W1) as [Q _]. lia.
+        - destruct S1 as (_ & _ & H1). destruct (H1 v0 W1) as [Q _]. lia. }
+      cbv zeta in E.
+      destruct h; try discriminate KD; try (eapply SUB; exact E); try (apply ret_inv in E; destruct E as (-> & -> & ->); exact SAME);
+        try (apply pfrag_node in Px; destruct Px as (n & Q & _); discriminate Q).
+      destruct k; try (apply ret_inv in E; destruct E as (-> & -> & ->); exact SAME).
+      pose proof (pfrag_leaf _ _ Px eq_refl) as ->.
+      apply bind_inv in E. destruct E as (tb & t2 & g2 & g3 & E1 & E2 & ->). inversion E1; subst tb t2 g2. clear E1.
+      apply allsub_node in Wx. destruct Wx as [[W1 W2] _]. cbn [head_var] in W1.
+      destruct (probe_tm t (Node (HInfer v0 General) [])) as [p |] eqn:PR.
+      + (* bound: generalise the value *)
+        cbn [probe_tm] in PR. destruct (get t v0) as [c0 |] eqn:E0; [| discriminate PR]. destruct (cval c0) as [u0 | p'] eqn:B0; [discriminate PR |].
+        inversion PR; subst p'. clear PR.
+        assert (Op : okt K t p) by (eapply okt_value; eassumption).
+        assert (Wp : wellb U (nvars t) ui p).
+        { eapply wellb_mono; [apply N.le_refl | exact W2 | intros; apply N.le_refl | exact (inv_bnd _ _ _ _ I v0 c0 p E0 B0)]. }
+        destruct (probe_tm t p) as [q |] eqn:PR2.
+        * (* the value is an int / float unknown that is bound in turn: to a scalar *)
+          destruct p as [| | hp cp]; try discriminate PR2.
+          assert (HV : head_var hp <> None) by (destruct hp; try discriminate PR2; discriminate).
+          destruct (inv_chain _ _ _ _ I v0 c0 hp cp E0 B0 HV) as (_ & w & kw & OK & KW).
+          assert (Hw : head_var hp = Some w) by (destruct hp; try discriminate OK; try (destruct k; inversion OK; reflexivity); inversion OK; reflexivity).
+          cbn [probe_tm] in PR2.
+          assert (PR3 : match get t w with Some c => match cval c with Bound p0 => Some p0 | Unbound _ => None end | None => None end = Some q)
+            by (destruct hp; try discriminate Hw; cbn [head_var] in Hw; inversion Hw; subst; exact PR2).
+          destruct (get t w) as [cw |] eqn:Ew; [| discriminate PR3]. destruct (cval cw) as [uw | q'] eqn:Bw; [discriminate PR3 |]. inversion PR3; subst q'.
+          assert (KWv : K w = KI \/ K w = KF).
+          { destruct Op as (_ & Kp & _). apply allsub_node in Kp. destruct Kp as [Kp _]. rewrite OK in Kp. rewrite Kp. exact KW. }
+          destruct (inv_num _ _ _ _ I w cw q Ew Bw KWv) as (sc & ->).
+          destruct (IH ui v (Node (HScalar sc) []) K U t g t1 g3 I (okt_value K U t w cw _ I Ew Bw)
+                       ltac:(apply allsub_node; split; [split; exact Logic.I | constructor]) E2)
+            as (-> & K1 & U1 & I1 & S1 & Og & Wg & G1 & _).
+          split; [reflexivity |]. exists K1, U1. repeat (split; [assumption |]). intros h' cs' Q NV _. inversion Q; subst. discriminate NV.
+        * destruct (IH ui v p K U t g t1 g3 I Op Wp E2) as (-> & K1 & U1 & I1 & S1 & Og & Wg & G1 & _).
+          split; [reflexivity |]. exists K1, U1. repeat (split; [assumption |]). intros h' cs' Q NV _. inversion Q; subst. discriminate NV.
+      + destruct (is_inv v); [apply ret_inv in E2; destruct E2 as (-> & -> & ->); cbn [app]; exact SAME |].
+        cbn [app]. eapply (NEW (fun n => HInfer n General) KG); [intros n; repeat split | left; discriminate | exact E2].
+    - (* lifetimes *)
+      destruct (is_inv v); [apply ret_inv in E; destruct E as (-> & -> & ->); exact SAME |].
+      eapply (NEW (fun n => HLInfer n) KL); [intros n; repeat split | right; discriminate | exact E].
+    - (* consts: outside the fragment *)
+      apply pfrag_node in Px. destruct Px as (n & Q & _). destruct h; try discriminate KD; discriminate Q.
+    - apply pfrag_node in Px. destruct Px as (n & Q & _). destruct h; try discriminate KD; discriminate Q.
+  Qed.
+
+  (** *** Shallow normalisation *)
+
+  (** a variable node that is its own shallow normal form is unbound *)
+  Definition nrm (t : table) (a : tm) : Prop :=
+    forall h cs w c, a = Node h cs -> head_var h = Some w -> get t w = Some c -> exists u, cval c = Unbound u.
+
+  Lemma probe_tm_some t a p : probe_tm t a = Some p ->
+    exists h cs v c, a = Node h cs /\ head_var h = Some v /\ get t v = Some c /\ cval c = Bound p.
+  Proof.
+    destruct a as [| | h cs]; try discriminate. cbn [probe_tm].
+    assert (G : forall v, match get t v with Some c => match cval c with Bound p0 => Some p0 | Unbound _ => None end | None => None end = Some p ->
+                     exists c, get t v = Some c /\ cval c = Bound p).
+    { intros v. destruct (get t v) as [c |]; [| discriminate]. destruct (cval c) as [u | x] eqn:B; [discriminate |]. intros Q. inversion Q; subst. eauto. }
+    destruct h; try discriminate; intros H; destruct (G _ H) as (c & E & B); do 4 eexists; (split; [reflexivity |]); (split; [reflexivity |]); eauto.
+  Qed.
+
+  Lemma probe_tm_none t h cs v c : head_var h = Some v -> get t v = Some c -> probe_tm t (Node h cs) = None -> exists u, cval c = Unbound u.
+  Proof.
+    intros Hv E. cbn [probe_tm]. destruct h; try discriminate Hv; cbn [head_var] in Hv; inversion Hv; subst; rewrite E;
+      (destruct (cval c) as [u | x]; [eauto | discriminate]).
+  Qed.
+
+  Lemma occ_kind_var h w k : occ_kind h = Some (w, k) -> head_var h = Some w.
+  Proof. destruct h; try discriminate; try (destruct k0; intros Q; inversion Q; reflexivity); intros Q; inversion Q; reflexivity. Qed.
+
+  Lemma shallow_ty_spec K U t gs a0 :
+    inv K U t -> okt K t a0 ->
+    okt K t (shallow_ty t a0) /\ teq t gs a0 (shallow_ty t a0) /\ nrm t (shallow_ty t a0).
+  Proof.
+    intros I O. unfold shallow_ty. destruct (probe_tm t a0) as [p |] eqn:P1.
+    - destruct (probe_tm_some _ _ _ P1) as (h & cs & v & c & -> & Hv & E & B).
+      pose proof (okt_value K U t v c p I E B) as Op.
+      assert (T1 : teq t gs (Node h cs) p) by (eapply teq_var_value; eassumption).
+      destruct (probe_tm t p) as [q |] eqn:P2.
+      + destruct (probe_tm_some _ _ _ P2) as (h' & cs' & w & c' & -> & Hw & E' & B').
+        split; [eapply okt_value; eassumption |]. split; [eapply teq_trans; [exact T1 | eapply teq_var_value; eassumption] |].
+        (* the second value is not a variable: its owner is an int / float unknown *)
+        assert (HV : head_var h' <> None) by congruence.
+        destruct (inv_chain _ _ _ _ I v c h' cs' E B HV) as (_ & w0 & k0 & OK & KW).
+        pose proof (occ_kind_var _ _ _ OK) as Hw0. rewrite Hw in Hw0. inversion Hw0; subst w0.
+        assert (KWv : K w = KI \/ K w = KF).
+        { destruct Op as (_ & Kp & _). apply allsub_node in Kp. destruct Kp as [Kp _]. rewrite OK in Kp. rewrite Kp. exact KW. }
+        destruct (inv_num _ _ _ _ I w c' q E' B' KWv) as (sc & ->).
+        intros h2 cs2 w2 c2 Q Hv2 _. inversion Q; subst. discriminate Hv2.
+      + split; [exact Op |]. split; [exact T1 |].
+        intros h2 cs2 w2 c2 Q Hv2 E2. subst p. eapply probe_tm_none; eassumption.
+    - split; [exact O |]. split; [apply teq_refl |].
+      intros h cs w c -> Hv E. eapply probe_tm_none; eassumption.
+  Qed.
+
+  Lemma shallow1_spec K U t gs a0 :
+    inv K U t -> okt K t a0 -> kind_of a0 = KLt ->
+    okt K t (shallow1 t a0) /\ teq t gs a0 (shallow1 t a0) /\ nrm t (shallow1 t a0).
+  Proof.
+    intros I O KL'. unfold shallow1. destruct (probe_tm t a0) as [p |] eqn:P1.
+    - destruct (probe_tm_some _ _ _ P1) as (h & cs & v & c & -> & Hv & E & B).
+      pose proof (okt_value K U t v c p I E B) as Op.
+      assert (Kv : K v = KL).
+      { destruct O as (_ & Ka & _). apply allsub_node in Ka. destruct Ka as [Ka _].
+        destruct h; try discriminate KL'; try discriminate Hv. cbn [head_var] in Hv. inversion Hv; subst. exact Ka. }
+      split; [exact Op |]. split; [eapply teq_var_value; eassumption |].
+      intros h2 cs2 w2 c2 -> Hv2 _.
+      destruct (inv_chain _ _ _ _ I v c h2 cs2 E B ltac:(congruence)) as (KG' & _). congruence.
+    - split; [exact O |]. split; [apply teq_refl |].
+      intros h cs w c -> Hv E. eapply probe_tm_none; eassumption.
+  Qed.
+
+  (** *** Unions and bindings *)
+
+  Lemma union_spec K U t v1 v2 c1 c2 u1 u2 r t1 g1 :
+    inv K U t -> get t v1 = Some c1 -> cval c1 = Unbound u1 -> get t v2 = Some c2 -> cval c2 = Unbound u2 -> K v1 = K v2 ->
+    union_vars v1 v2 t = (Done r, t1, g1) ->
+    g1 = [] /\ exists U1, inv K U1 t1 /\ step K U t K U1 t1 /\ same_class t1 v1 v2.
+  Proof.
+    intros I E1 B1 E2 B2 HK H. unfold union_vars in H.
+    apply bind_inv in H. destruct H as (ca & t2 & g2 & g3 & H1 & H2 & ->). apply get_cell_inv in H1. destruct H1 as (-> & -> & Ea).
+    apply bind_inv in H2. destruct H2 as (cb & t3 & g4 & g5 & H3 & H4 & ->). apply get_cell_inv in H3. destruct H3 as (-> & -> & Eb).
+    rewrite E1 in Ea. inversion Ea; subst ca. rewrite E2 in Eb. inversion Eb; subst cb. clear Ea Eb.
+    destruct (N.eqb_spec (ccls c1) (ccls c2)) as [Q | NQ].
+    - apply ret_inv in H4. destruct H4 as (_ & -> & ->). split; [reflexivity |]. exists U. split; [exact I |]. split; [apply step_refl |].
+      exists c1, c2. auto.
+    - rewrite B1, B2 in H4. inversion H4; subst. clear H4. split; [reflexivity |].
+      assert (HA : forall v cl, get t v = Some cl -> ccls cl = ccls c1 -> cval cl = Unbound u1).
+      { intros v cl Ev Q. rewrite (inv_cons _ _ _ _ I v v1 cl c1 Ev E1 Q). exact B1. }
+      assert (HB : forall v cl, get t v = Some cl -> ccls cl = ccls c2 -> cval cl = Unbound u2).
+      { intros v cl Ev Q. rewrite (inv_cons _ _ _ _ I v v2 cl c2 Ev E2 Q). exact B2. }
+      assert (HKK : forall v w ca cb, get t v = Some ca -> get t w = Some cb -> (ccls ca = ccls c1 \/ ccls ca = ccls c2) -> (ccls cb = ccls c1 \/ ccls cb = ccls c2) -> K v = K w).
+      { intros v w ca cb Ev Ew Qa Qb.
+        assert (A : K v = K v1) by (destruct Qa as [Qa | Qa]; [exact (inv_ck _ _ _ _ I v v1 ca c1 Ev E1 Qa) | rewrite HK; exact (inv_ck _ _ _ _ I v v2 ca c2 Ev E2 Qa)]).
+        assert (B : K w = K v1) by (destruct Qb as [Qb | Qb]; [exact (inv_ck _ _ _ _ I w v1 cb c1 Ew E1 Qb) | rewrite HK; exact (inv_ck _ _ _ _ I w v2 cb c2 Ew E2 Qb)]).
+        congruence. }
+      destruct (inv_merge ar K U t (ccls c1) (ccls c2) u1 u2 I HA HB HKK ltac:(eauto) ltac:(eauto)) as [I1 S1].
+      eexists. split; [exact I1 |]. split; [exact S1 |].
+      eexists. eexists. rewrite !get_merge, E1, E2. cbn [option_map]. split; [reflexivity |]. split; [reflexivity |].
+      rewrite !N.eqb_refl, orb_true_r. cbn [orb ccls]. reflexivity.
+  Qed.
+
+  Lemma bindvar_spec K U t v c u g r t1 g1 :
+    inv K U t -> get t v = Some c -> cval c = Unbound u ->
+    okt K t g -> wellb U (nvars t) u g ->
+    (forall h cs, g = Node h cs -> head_var h <> None -> K v = KG /\ exists w k, occ_kind h = Some (w, k) /\ (k = KI \/ k = KF)) ->
+    (K v = KI \/ K v = KF -> exists s, g = Node (HScalar s) []) ->
+    bind_var v g t = (Done r, t1, g1) ->
+    g1 = [] /\ inv K U t1 /\ step K U t K U t1 /\ bound_to t1 v g.
+  Proof.
+    intros I E B (Pg & Kg & _) Wg Hc Hn H. unfold bind_var in H.
+    apply bind_inv in H. destruct H as (c' & t2 & g2 & g3 & H1 & H2 & ->). apply get_cell_inv in H1. destruct H1 as (-> & -> & E').
+    rewrite E in E'. inversion E'; subst c'. rewrite B in H2. inversion H2; subst. clear H2.
+    assert (HU : forall w cl, get t w = Some cl -> ccls cl = ccls c -> cval cl = Unbound u).
+    { intros w cl Ew Q. rewrite (inv_cons _ _ _ _ I w v cl c Ew E Q). exact B. }
+    destruct (inv_bind ar K U t (ccls c) u g I HU Pg Wg Kg) as [I1 S1].
+    - intros h cs Q HV. destruct (Hc h cs Q HV) as [A B']. split; [| exact B'].
+      intros w cl Ew Qc. rewrite (inv_ck _ _ _ _ I w v cl c Ew E Qc). exact A.
+    - intros w cl Ew Qc HK. apply Hn. rewrite <- (inv_ck _ _ _ _ I w v cl c Ew E Qc). exact HK.
+    - split; [reflexivity |]. split; [exact I1 |]. split; [exact S1 |].
+      eexists. rewrite get_set_value, E. cbn [option_map]. rewrite N.eqb_refl. split; reflexivity.
+  Qed.
+
+  (** *** Lifetimes *)
+
+  Lemma lcls_inv a :
+    match lcls_of a with
+    | LInfer v => exists cs, a = Node (HLInfer v) cs
+    | LPh ui => exists i cs, a = Node (HLPlaceholder ui i) cs
+    | LStatic => exists cs, a = Node HLStatic cs
+    | LErased => exists cs, a = Node HLErased cs
+    | LError => exists cs, a = Node HLError cs
+    | LBound | LBad => True
+    end.
+  Proof. destruct a as [| | h cs]; cbn [lcls_of]; try exact Logic.I. destruct h; cbn; eauto. Qed.
+
+  Lemma okt_nil K t h cs : okt K t (Node h cs) -> head_arity ar h = Some 0%nat -> cs = [].
+  Proof. intros (P & _) A. eapply pfrag_leaf; eassumption. Qed.
+
+  Lemma union_spec' K U t v1 v2 r t1 g1 :
+    inv K U t ->
+    (forall c, get t v1 = Some c -> exists u, cval c = Unbound u) ->
+    (forall c, get t v2 = Some c -> exists u, cval c = Unbound u) -> K v1 = K v2 ->
+    union_vars v1 v2 t = (Done r, t1, g1) ->
+    g1 = [] /\ exists U1, inv K U1 t1 /\ step K U t K U1 t1 /\ same_class t1 v1 v2.
+  Proof.
+    intros I N1 N2 HK H. pose proof H as H'. unfold union_vars in H'.
+    apply bind_inv in H'. destruct H' as (ca & t2 & g2 & g3 & H1 & H2 & _). apply get_cell_inv in H1. destruct H1 as (-> & _ & Ea).
+    apply bind_inv in H2. destruct H2 as (cb & t3 & g4 & g5 & H3 & _ & _). apply get_cell_inv in H3. destruct H3 as (_ & _ & Eb).
+    destruct (N1 ca Ea) as (u1 & B1). destruct (N2 cb Eb) as (u2 & B2).
+    eapply union_spec; eassumption.
+  Qed.
+
+  Lemma unify_lt_spec K U t va b vu r t1 g1 :
+    inv K U t -> (forall c, get t va = Some c -> exists u, cval c = Unbound u) -> K va = KL ->
+    okt K t b -> kind_of b = KLt -> (forall h cs, b = Node h cs -> head_var h = None) ->
+    (forall var_ui, vu <= var_ui -> wellb U (nvars t) var_ui b) ->
+    unify_lifetime_var Invariant va b vu t = (Done r, t1, g1) ->
+    inv K U t1 /\ step K U t K U t1 /\ teq t1 g1 (lt_var va) b.
+  Proof.
+    intros I N1 KV Ob Kb NVb Wb H. unfold unify_lifetime_var in H.
+    apply bind_inv in H. destruct H as (c & t2 & g2 & g3 & H1 & H2 & ->). apply get_cell_inv in H1. destruct H1 as (-> & -> & E).
+    destruct (N1 c E) as (u & B). rewrite B in H2. cbn [is_inv variance_eqb] in H2. rewrite andb_true_r in H2.
+    destruct (N.leb_spec vu u) as [L | L].
+    - destruct (bindvar_spec K U t va c u b r t1 g3 I E B Ob (Wb u L)) as (-> & I1 & S1 & Bd); try exact H2.
+      + intros h cs Q HV. rewrite (NVb h cs Q) in HV. contradiction.
+      + intros [Q | Q]; congruence.
+      + split; [exact I1 |]. split; [exact S1 |]. eapply teq_bound; [reflexivity | exact Bd].
+    - apply push_outlives_inv in H2. destruct H2 as (-> & ->). split; [exact I |]. split; [apply step_refl |].
+      apply teq_outlives; try reflexivity; try exact Kb; cbn [app In]; auto.
+  Qed.
+
+  Lemma rel_lt_norm_spec K U t a b r t1 g1 :
+    inv K U t -> okt K t a -> okt K t b -> nrm t a -> nrm t b ->
+    rel_lt_norm Invariant a b t = (Done r, t1, g1) ->
+    exists U1, inv K U1 t1 /\ step K U t K U1 t1 /\ teq t1 g1 a b.
+  Proof.
+    intros I Oa Ob Na Nb H. unfold rel_lt_norm in H.
+    assert (PUSH : forall x y, kind_of x = KLt -> kind_of y = KLt ->
+               (if tm_eqb x y then ret tt else push_outlives Invariant x y) t = (Done r, t1, g1) ->
+               exists U1, inv K U1 t1 /\ step K U t K U1 t1 /\ teq t1 g1 x y).
+    { intros x y Kx Ky H'. destruct (tm_eqb x y) eqn:Q.
+      - apply tm_eqb_eq in Q. subst y. apply ret_inv in H'. destruct H' as (_ & -> & ->). exists U. split; [exact I |]. split; [apply step_refl | apply teq_refl].
+      - apply push_outlives_inv in H'. destruct H' as (-> & ->). exists U. split; [exact I |]. split; [apply step_refl |].
+        apply teq_outlives; try assumption; cbn [In]; auto. }
+    assert (VARL : forall v cs x, x = Node (HLInfer v) cs -> okt K t x -> nrm t x ->
+               x = lt_var v /\ K v = KL /\ (forall c, get t v = Some c -> exists u, cval c = Unbound u)).
+    { intros v cs x -> Ox Nx. pose proof (okt_nil _ _ _ _ Ox eq_refl) as ->. split; [reflexivity |]. split.
+      - destruct Ox as (_ & Kx & _). apply allsub_node in Kx. apply Kx.
+      - intros c E. eapply Nx; [reflexivity | reflexivity | exact E]. }
+    assert (RIGID : forall x, okt K t x -> match lcls_of x with LPh _ | LStatic | LErased => True | _ => False end ->
+               kind_of x = KLt /\ (forall h cs, x = Node h cs -> head_var h = None)
+               /\ (forall var_ui, match lcls_of x with LPh ui => ui | _ => 0 end <= var_ui -> wellb U (nvars t) var_ui x)).
+    { intros x Ox Lx. pose proof (lcls_inv x) as Q. destruct (lcls_of x) eqn:LX; try contradiction.
+      - destruct Q as (i & cs & ->). pose proof (okt_nil _ _ _ _ Ox eq_refl) as ->. split; [reflexivity |]. split; [intros h cs Q; inversion Q; reflexivity |].
+        intros vu L. apply allsub_node. split; [split; [exact Logic.I | exact L] | constructor].
+      - destruct Q as (cs & ->). pose proof (okt_nil _ _ _ _ Ox eq_refl) as ->. split; [reflexivity |]. split; [intros h cs Q; inversion Q; reflexivity |].
+        intros vu L. apply allsub_node. split; [split; exact Logic.I | constructor].
+      - destruct Q as (cs & ->). pose proof (okt_nil _ _ _ _ Ox eq_refl) as ->. split; [reflexivity |]. split; [intros h cs Q; inversion Q; reflexivity |].
+        intros vu L. apply allsub_node. split; [split; exact Logic.I | constructor]. }
+    assert (NOERR : forall x, okt K t x -> lcls_of x <> LError).
+    { intros x (Px & _) Q. pose proof (lcls_inv x) as Q'. rewrite Q in Q'. destruct Q' as (cs & ->). apply pfrag_node in Px. destruct Px as (n & Q'' & _). discriminate Q''. }
+    pose proof (NOERR a Oa) as NEa. pose proof (NOERR b Ob) as NEb.
+    pose proof (lcls_inv a) as IA. pose proof (lcls_inv b) as IB.
+    pose proof (RIGID a Oa) as RA. pose proof (RIGID b Ob) as RB.
+    destruct (lcls_of a) as [va | ua | | | | |] eqn:LA; try congruence; try (apply fail_inv in H; discriminate H);
+      destruct (lcls_of b) as [vb | ub | | | | |] eqn:LB; try congruence; try (apply fail_inv in H; discriminate H); cbv iota in H.
+    - (* unknown / unknown *)
+      cbn [is_inv variance_eqb] in H. destruct IA as (csa & Qa). destruct IB as (csb & Qb).
+      destruct (VARL va csa a Qa Oa Na) as (-> & Ka & Ca). destruct (VARL vb csb b Qb Ob Nb) as (-> & Kb & Cb).
+      destruct (union_spec' K U t va vb r t1 g1 I Ca Cb ltac:(congruence) H) as (-> & U1 & I1 & S1 & SC).
+      exists U1. split; [exact I1 |]. split; [exact S1 |]. eapply teq_class; [reflexivity | reflexivity | exact SC].
+    - destruct IA as (csa & Qa). destruct (VARL va csa a Qa Oa Na) as (-> & Ka & Ca). destruct (RB Logic.I) as (Kb & NVb & Wb).
+      destruct (unify_lt_spec K U t va b ub r t1 g1 I Ca Ka Ob Kb NVb Wb H) as (I1 & S1 & T1). exists U. auto.
+    - destruct IA as (csa & Qa). destruct (VARL va csa a Qa Oa Na) as (-> & Ka & Ca). destruct (RB Logic.I) as (Kb & NVb & Wb).
+      destruct (unify_lt_spec K U t va b 0 r t1 g1 I Ca Ka Ob Kb NVb Wb H) as (I1 & S1 & T1). exists U. auto.
+    - destruct IA as (csa & Qa). destruct (VARL va csa a Qa Oa Na) as (-> & Ka & Ca). destruct (RB Logic.I) as (Kb & NVb & Wb).
+      destruct (unify_lt_spec K U t va b 0 r t1 g1 I Ca Ka Ob Kb NVb Wb H) as (I1 & S1 & T1). exists U. auto.
+    - destruct IB as (csb & Qb). destruct (VARL vb csb b Qb Ob Nb) as (-> & Kb & Cb). destruct (RA Logic.I) as (Ka & NVa & Wa).
+      cbn [invert] in H. destruct (unify_lt_spec K U t vb a ua r t1 g1 I Cb Kb Oa Ka NVa Wa H) as (I1 & S1 & T1). exists U. split; [exact I1 |]. split; [exact S1 | apply teq_sym; exact T1].
+    - apply PUSH; [apply (RA Logic.I) | apply (RB Logic.I) | exact H].
+    - apply PUSH; [apply (RA Logic.I) | apply (RB Logic.I) | exact H].
+    - apply PUSH; [apply (RA Logic.I) | apply (RB Logic.I) | exact H].
+    - destruct IB as (csb & Qb). destruct (VARL vb csb b Qb Ob Nb) as (-> & Kb & Cb). destruct (RA Logic.I) as (Ka & NVa & Wa).
+      cbn [invert] in H. destruct (unify_lt_spec K U t vb a 0 r t1 g1 I Cb Kb Oa Ka NVa Wa H) as (I1 & S1 & T1). exists U. split; [exact I1 |]. split; [exact S1 | apply teq_sym; exact T1].
+    - apply PUSH; [apply (RA Logic.I) | apply (RB Logic.I) | exact H].
+    - destruct IA as (csa & ->). destruct IB as (csb & ->). rewrite (okt_nil _ _ _ _ Oa eq_refl), (okt_nil _ _ _ _ Ob eq_refl).
+      apply ret_inv in H. destruct H as (_ & -> & ->). exists U. split; [exact I |]. split; [apply step_refl | apply teq_refl].
+    - apply PUSH; [apply (RA Logic.I) | apply (RB Logic.I) | exact H].
+    - destruct IB as (csb & Qb). destruct (VARL vb csb b Qb Ob Nb) as (-> & Kb & Cb). destruct (RA Logic.I) as (Ka & NVa & Wa).
+      cbn [invert] in H. destruct (unify_lt_spec K U t vb a 0 r t1 g1 I Cb Kb Oa Ka NVa Wa H) as (I1 & S1 & T1). exists U. split; [exact I1 |]. split; [exact S1 | apply teq_sym; exact T1].
+    - apply PUSH; [apply (RA Logic.I) | apply (RB Logic.I) | exact H].
+    - apply PUSH; [apply (RA Logic.I) | apply (RB Logic.I) | exact H].
+    - destruct IA as (csa & ->). destruct IB as (csb & ->). rewrite (okt_nil _ _ _ _ Oa eq_refl), (okt_nil _ _ _ _ Ob eq_refl).
+      apply ret_inv in H. destruct H as (_ & -> & ->). exists U. split; [exact I |]. split; [apply step_refl | apply teq_refl].
+  Qed.
+
+  (** *** Types *)
+
+  Definition rel_post (a b : tm) (K : N -> vk) (U : N -> N) (t t1 : table) (g1 : list tm) : Prop :=
+    exists K1 U1, inv K1 U1 t1 /\ step K U t K1 U1 t1 /\ teq t1 g1 a b.
+
+  Section RelLevel.
+    Variable f : nat.
+    Variable rec : rel_fn.
+    Hypothesis IHrec : forall a b K U t r t1 g1,
+      inv K U t -> okt K t a -> okt K t b -> rec Invariant a b t = (Done r, t1, g1) -> rel_post a b K U t t1 g1.
+
+    Lemma zip_spec (vf : nat -> variance) : (forall i, vf i = Invariant) -> forall l l' i K U t r t1 g1,
+      inv K U t -> Forall (okt K t) l -> Forall (okt K t) l' -> length l = length l' ->
+      zip_children rec vf i l l' t = (Done r, t1, g1) ->
+      exists K1 U1, inv K1 U1 t1 /\ step K U t K1 U1 t1 /\ Forall2 (teq t1 g1) l l'.
+    Proof.
+      intros Hvf. induction l as [| x rl IHl]; intros l' i K U t r t1 g1 I Hl Hl' Len E; destruct l' as [| y rl']; try discriminate Len; cbn [zip_children] in E.
+      - apply ret_inv in E. destruct E as (_ & -> & ->). exists K, U. split; [exact I |]. split; [apply step_refl | constructor].
+      - apply Forall_cons_iff in Hl, Hl'. destruct Hl as [Hx Hr], Hl' as [Hy Hr'].
+        apply bind_inv in E. destruct E as (r1 & t2 & g2 & g3 & E1 & E2 & ->).
+        unfold rel_garg in E1. destruct (kind_eqb (kind_of x) (kind_of y)); [| apply fail_inv in E1; discriminate E1].
+        rewrite Hvf in E1. destruct (IHrec x y K U t r1 t2 g2 I Hx Hy E1) as (K2 & U2 & I2 & S2 & T2).
+        assert (Hr2 : Forall (okt K2 t2) rl). { eapply Forall_impl; [| exact Hr]. intros z Hz. eapply okt_step; eassumption. }
+        assert (Hr2' : Forall (okt K2 t2) rl'). { eapply Forall_impl; [| exact Hr']. intros z Hz. eapply okt_step; eassumption. }
+        destruct (IHl rl' (S i) K2 U2 t2 r t1 g3 I2 Hr2 Hr2' ltac:(cbn [length] in Len; lia) E2) as (K3 & U3 & I3 & S3 & T3).
+        exists K3, U3. split; [exact I3 |]. split; [eapply step_trans; eassumption |]. constructor.
+        + eapply teq_step; [exact S3 | | exact T2]. apply incl_appl. apply incl_refl.
+        + eapply Forall2_impl'; [| exact T3]. intros a b Hab. eapply teq_mono; [apply pext_refl | | exact Hab]. apply incl_appr. apply incl_refl.
+    Qed.
+
+    (** binding an unknown to a type that is not an unknown *)
+    Lemma rel_var_ty_spec K U t var k cs ty r t1 g1 :
+      inv K U t -> okt K t (Node (HInfer var k) cs) -> nrm t (Node (HInfer var k) cs) -> okt K t ty ->
+      kind_of ty = KTy -> (forall h cs', ty = Node h cs' -> head_var h = None) ->
+      rel_var_ty adt_var fn_var f rec Invariant var k ty t = (Done r, t1, g1) ->
+      rel_post (Node (HInfer var k) cs) ty K U t t1 g1.
+    Proof.
+      intros I Ov Nv Oty Kty NVty H. unfold rel_var_ty in H.
+      destruct (match k with General => true | Integer => is_integer_ty ty | FloatVar => is_float_ty ty end) eqn:FILT; [| apply fail_inv in H; discriminate H].
+      apply bind_inv in H. destruct H as (vc & t2 & g2 & g3 & H1 & H2 & ->). apply get_cell_inv in H1. destruct H1 as (-> & -> & Evar).
+      destruct (Nv _ _ var vc eq_refl eq_refl Evar) as (ui & Bvar). rewrite Bvar in H2.
+      assert (Kvar : K var = match k with General => KG | Integer => KI | FloatVar => KF end).
+      { destruct Ov as (_ & Kv & _). apply allsub_node in Kv. destruct Kv as [Kv _]. destruct k; exact Kv. }
+      assert (KNL : K var <> KL) by (rewrite Kvar; destruct k; discriminate).
+      apply bind_inv in H2. destruct H2 as (ty1 & t3 & g4 & g5 & H3 & H4 & ->).
+      destruct (occ_spec f var ui vc Bvar 0 ty K U t ty1 t3 g4 I Oty Evar KNL H3) as (K3 & U3 & I3 & S3 & O1 & W1 & T1 & V3).
+      apply bind_inv in H4. destruct H4 as (g & t4 & g6 & g7 & H5 & H6 & ->).
+      destruct (gen_spec f ui Invariant ty1 K3 U3 t3 g t4 g6 I3 O1 W1 H5) as (-> & K4 & U4 & I4 & S4 & Og & Wg & G4 & HD4).
+      apply bind_inv in H6. destruct H6 as (r2 & t5 & g8 & g9 & H7 & H8 & ->).
+      (* the heads of [ty], [ty1] and [g] coincide *)
+      destruct ty as [| | hty csty]; try (destruct Oty as [Q _]; discriminate Q).
+      pose proof (NVty _ _ eq_refl) as NVh.
+      assert (HD3 : exists cs1, ty1 = Node hty cs1).
+      { clear - H3 NVh Kty. destruct f as [| f']; cbn [occ] in H3; [apply fail_inv in H3; discriminate H3 |].
+        destruct hty; try discriminate NVh; try discriminate Kty;
+          try (apply bind_inv in H3; destruct H3 as (cs1 & ? & ? & ? & _ & H3 & _); apply ret_inv in H3; destruct H3 as (-> & _); eauto).
+        destruct (ui <? ui0); [apply fail_inv in H3; discriminate H3 | apply ret_inv in H3; destruct H3 as (-> & _); eauto]. }
+      destruct HD3 as (cs1 & ->). destruct (HD4 hty cs1 eq_refl NVh ltac:(exact Kty)) as (csg & ->).
+      assert (K4var : K4 var = K var).
+      { destruct S3 as (_ & N3 & H3'). destruct S4 as (_ & _ & H4'). pose proof (get_some_lt _ _ _ Evar) as Lv.
+        rewrite (proj2 (H4' var ltac:(lia))). apply H3'. exact Lv. }
+      destruct (bindvar_spec K4 U4 t4 var vc ui (Node hty csg) r2 t5 g8 I4 (G4 var vc V3) Bvar Og Wg) as (-> & I5 & S5 & Bd); try exact H7.
+      { intros h cs0 Q HV. inversion Q; subst. contradiction. }
+      { intros KN. rewrite K4var, Kvar in KN. destruct k; try (destruct KN; discriminate).
+        - destruct hty; try discriminate FILT. destruct s; try discriminate FILT; rewrite (okt_nil _ _ _ _ Og eq_refl); eauto.
+        - destruct hty; try discriminate FILT. destruct s; try discriminate FILT; rewrite (okt_nil _ _ _ _ Og eq_refl); eauto. }
+      destruct (IHrec (Node hty csg) (Node hty cs1) K4 U4 t5 r t1 g9 I5 (okt_step _ _ _ _ _ _ _ S5 Og)
+                      (okt_step _ _ _ _ _ _ _ S5 (okt_step _ _ _ _ _ _ _ S4 O1)) H8) as (K6 & U6 & I6 & S6 & T6).
+      exists K6, U6. split; [exact I6 |].
+      split; [eapply step_trans; [exact S3 |]; eapply step_trans; [exact S4 |]; eapply step_trans; [exact S5 | exact S6] |].
+      cbn [app]. eapply teq_trans; [eapply teq_bound; [reflexivity | apply (proj1 (proj1 S6)); exact Bd] |].
+      eapply teq_trans; [eapply teq_mono; [apply pext_refl | | exact T6]; apply incl_appr; apply incl_refl |].
+      apply teq_sym. eapply teq_mono; [| | exact T1].
+      - eapply pext_trans; [apply S4 |]. eapply pext_trans; [apply S5 | apply S6].
+      - apply incl_appl. apply incl_refl.
+    Qed.
+  End RelLevel.
 End Specs.
